@@ -8,7 +8,7 @@
 from pymbolic.mapper.stringifier import (
     PREC_UNARY, PREC_LOGICAL_AND, PREC_LOGICAL_OR, PREC_COMPARISON, PREC_NONE
 )
-from pymbolic.primitives import FloorDiv, Remainder
+from pymbolic.primitives import FloorDiv, Remainder, LogicalNot
 
 from loki.backend.pprint import Stringifier
 from loki.backend.style import FortranStyle
@@ -49,9 +49,11 @@ class FCodeMapper(LokiStringifyMapper):
     map_int_literal = map_float_literal
 
     def map_logical_not(self, expr, enclosing_prec, *args, **kwargs):
-        return self.parenthesize_if_needed(
-            ".not." + self.rec(expr.child, PREC_UNARY, *args, **kwargs),
-            enclosing_prec, PREC_UNARY)
+        child = self.rec(expr.child, PREC_UNARY, *args, **kwargs)
+        if isinstance(expr.child, LogicalNot):
+            # A directly nested negation needs parentheses: ".not..not.x" is not valid Fortran
+            child = self.parenthesize(child)
+        return self.parenthesize_if_needed(".not." + child, enclosing_prec, PREC_UNARY)
 
     def map_logical_and(self, expr, enclosing_prec, *args, **kwargs):
         return self.parenthesize_if_needed(
